@@ -15,7 +15,7 @@
     L21Norm.prox                      → `l21Prox`             (groups given by a labelling `grp`)
     HuberNorm._prox_sep / _prox_nonsep→ `huberSepProx1`, `huberSepProxC1`, `huberNonsepProx`
     L1MinusL2Norm.prox                → `l1l2Prox`, complex `l1l2ProxC` (the four `where` branches, first arg-max)
-    NuclearNorm.prox (on svdS)        → `nuclearSvProx`
+    NuclearNorm.prox (on svdS)        → `nuclearSvProx`; with the SVD factors: `nuclearProx U s Vh` (= U diag(..) Vh)
   scico/functional/_indicator.py
     NonNegativeIndicator.prox         → `nonnegProx`
     L2BallIndicator.prox              → `l2ballProx` (`v * (r / max(‖v‖, r))`, the code after fix b3feb73)
@@ -31,6 +31,9 @@
     SquaredL2AbsLoss.prox             → `sqL2AbsProx1`, complex `sqL2AbsProxC1`
     SquaredL2SquaredAbsLoss.prox      → `sqL2SqAbsProx1`, complex `sqL2SqAbsProxC1` (cubic root `r` is an input;
                                         `depCubicP/Q` are the coefficients handed to `_dep_cubic_root`)
+    _dep_cubic_root / _cbrt           → `depCubicRoot`, `cbrtC`, `cpowThird`, `csqrtReal` (complex arithmetic on pairs; the
+                                        transcendental primitives are the class `HasTrig`); `sqL2SqAbsProxFull1/C1` =
+                                        the prox with the root computed by the model
   scico/numpy/util.py
     no_nan_divide                     → `noNanDiv`
 
@@ -313,5 +316,150 @@ def scaleAfter {α : Type} [Mul α] [Div α] (s0 : α) (ops : List (ScaleOp α))
     | .mul c => s * c
     | .div c => s / c
     | .set c => c) s0
+
+/-- the scale the ORIGINAL loss object carries after the same history: `c*L`, `L*c`, `L/c` return a copy (`copy(self)`,
+    the original is not touched, nor by anything done to the copy afterwards); `set_scale` mutates the object it is called on -/
+def scaleOfOriginal {α : Type} (s0 : α) : List (ScaleOp α) → α
+  | .set c :: rest => scaleOfOriginal c rest
+  | _ => s0
+
+/-! ### `loss._dep_cubic_root`, `loss._cbrt` -/
+
+/-- transcendental primitives needed by `loss._cbrt` / the complex power `z ** (1/3)`; contracts of the JAX
+    primitives (`Float` instance in the driver, `ℝ` instance in `Proofs/ProxCubic.lean`) -/
+class HasTrig (α : Type) where
+  cos : α → α
+  sin : α → α
+  /-- `atan2 y x` : the angle of `x + i y`, in `(-π, π]` (`snp.angle`) -/
+  atan2 : α → α → α
+  /-- cube root of a NON-NEGATIVE real (`x ** (1/3)`) -/
+  cbrt : α → α
+  pi : α
+
+section Cubic
+
+variable {α : Type} [Add α] [Sub α] [Mul α] [Div α] [Neg α] [Zero α] [One α] [OfNat α 2] [OfNat α 3] [OfNat α 4]
+  [OfNat α 27] [LT α] [DecidableLT α] [HasAbs α] [HasSqrt α] [HasTrig α]
+
+/-- `snp.sqrt(d + 0j)` for a real `d`: the principal complex square root (`i·√(-d)` for `d < 0`) -/
+def csqrtReal (d : α) : α × α := if d < 0 then (0, HasSqrt.sqrt (-d)) else (HasSqrt.sqrt d, 0)
+
+/-- `z ** (1/3)`, the principal complex power `exp(log(z)/3) = |z|^(1/3)·(cos(θ/3) + i sin(θ/3))`, `θ = angle z`;
+    `0` at `z = 0` -/
+def cpowThird (z : α × α) : α × α :=
+  let rho := cabs z
+  if 0 < rho then
+    let th := HasTrig.atan2 z.2 z.1
+    (HasTrig.cbrt rho * HasTrig.cos (th / 3), HasTrig.cbrt rho * HasTrig.sin (th / 3))
+  else (0, 0)
+
+/-- `loss._cbrt` : `s * (s*x) ** (1/3)` with `s = where(|angle x| <= 2π/3, 1, -1)` -/
+def cbrtC (z : α × α) : α × α :=
+  if 2 * HasTrig.pi / 3 < HasAbs.abs (HasTrig.atan2 z.2 z.1) then cscale (-1) (cpowThird (cscale (-1) z))
+  else cpowThird z
+
+/-- real part of `no_nan_divide(p, t)` for a real numerator `p` and a complex denominator `t` -/
+def reNoNanDivC (p : α) (t : α × α) : α :=
+  if isZero t.1 && isZero t.2 then 0 else p * t.1 / (t.1 * t.1 + t.2 * t.2)
+
+/-- `loss._dep_cubic_root(p, q)`:
+    `Δ = q²/4 + p³/27; w3 = where(|p| <= eps, -q, -q/2 + sqrt(Δ + 0j)); w = _cbrt(w3); r = (w - no_nan_divide(p, 3w)).real`
+    (`eps` is the literal `1e-7` of the code) -/
+def depCubicRoot (eps p q : α) : α :=
+  let d := q * q / 4 + p * p * p / 27
+  let w3 : α × α := if eps < HasAbs.abs p then cadd (-q / 2, 0) (csqrtReal d) else (-q, 0)
+  let w := cbrtC w3
+  w.1 - reNoNanDivC p (cscale 3 w)
+
+/-- `SquaredL2SquaredAbsLoss.prox` on one real entry with the root computed by the model of `_dep_cubic_root` -/
+def sqL2SqAbsProxFull1 (eps scale w y v lam : α) : α :=
+  sqL2SqAbsProx1 scale w v lam (depCubicRoot eps (depCubicP scale w y lam) (depCubicQ scale w (HasAbs.abs v) lam))
+
+/-- the same on one complex entry -/
+def sqL2SqAbsProxFullC1 (eps scale w y : α) (z : α × α) (lam : α) : α × α :=
+  sqL2SqAbsProxC1 scale w z lam (depCubicRoot eps (depCubicP scale w y lam) (depCubicQ scale w (cabs z) lam))
+
+end Cubic
+
+section CubicVec
+
+variable {α : Type} [Add α] [Sub α] [Mul α] [Div α] [Neg α] [Zero α] [One α] [OfNat α 2] [OfNat α 3] [OfNat α 4]
+  [OfNat α 27] [LT α] [DecidableLT α] [HasAbs α] [HasSqrt α] [HasTrig α] {n : Nat}
+
+/-- `SquaredL2SquaredAbsLoss.prox` (real input) with the root computed by the model of `_dep_cubic_root` -/
+def sqL2SqAbsProxFull (eps scale : α) (w y v : Vec α n) (lam : α) : Vec α n :=
+  fun i => sqL2SqAbsProxFull1 eps scale (w i) (y i) (v i) lam
+
+/-- the same for complex input -/
+def sqL2SqAbsProxFullC (eps scale : α) (w y : Vec α n) (v : Vec (α × α) n) (lam : α) : Vec (α × α) n :=
+  fun i => sqL2SqAbsProxFullC1 eps scale (w i) (y i) (v i) lam
+
+end CubicVec
+
+/-! ### `NuclearNorm.prox` from the factors of the thin SVD -/
+
+section Nuclear
+
+variable {α : Type} [Add α] [Sub α] [Mul α] [Zero α] [LT α] [DecidableLT α] {m n k : Nat}
+
+/-- `NuclearNorm.prox` given what `svd(v, full_matrices=False)` returned (`U : m×k`, `s : k`, `Vh : k×n`):
+    `svdU @ diag(maximum(0, svdS - lam)) @ svdV` -/
+def nuclearProx (U : Fin m → Fin k → α) (s : Vec α k) (Vh : Fin k → Fin n → α) (lam : α) : Fin m → Fin n → α :=
+  fun i j => Vec.sum (fun l => U i l * nuclearSvProx s lam l * Vh l j)
+
+/-- `U @ diag(s) @ Vh` : the matrix the factors stand for -/
+def usvMat (U : Fin m → Fin k → α) (s : Vec α k) (Vh : Fin k → Fin n → α) : Fin m → Fin n → α :=
+  fun i j => Vec.sum (fun l => U i l * s l * Vh l j)
+
+end Nuclear
+
+/-! ### which constructions advertise a prox (`has_prox`) and how invalid ones are rejected
+    (`SquaredL2Loss / SquaredL2AbsLoss / SquaredL2SquaredAbsLoss.__init__` and `.prox`, `NuclearNorm.prox`, `L21Norm.prox`) -/
+
+/-- the weighting argument `W` of the three specific losses -/
+inductive WArg where
+  | none          -- `W=None` : identity weighting
+  | diagNonneg    -- a `linop.Diagonal` with `diagonal >= 0` everywhere (zeros allowed)
+  | diagNegative  -- a `linop.Diagonal` with a negative entry
+  | notDiagonal   -- anything else
+  deriving DecidableEq, Repr
+
+/-- the forward operator argument `A` -/
+inductive AArg where
+  | none        -- `A=None` : an `Identity` is built
+  | identity    -- a `linop.Identity`
+  | diagonal    -- a `linop.Diagonal` that is not an `Identity`
+  | otherLinop  -- any other `LinearOperator`
+  | nonlinear   -- an `Operator` that is not a `LinearOperator`
+  deriving DecidableEq, Repr
+
+/-- what happens: the object advertises a prox / `prox` raises `NotImplementedError` / the constructor raises -/
+inductive Guard where
+  | hasProxClosed   -- `has_prox = True`, closed-form prox (the formulas above)
+  | hasProxCG       -- `has_prox = True`, `SquaredL2Loss` with a general linear operator: conjugate gradient (not exact)
+  | noProx          -- `has_prox = False`, `prox` raises `NotImplementedError`
+  | valueError      -- the constructor raises `ValueError` (negative weights)
+  | typeError       -- the constructor raises `TypeError` (`W` is not a `Diagonal`)
+  deriving DecidableEq, Repr
+
+/-- the `W` checks shared by the three constructors (they run BEFORE anything else) -/
+def wGuard (w : WArg) (k : Guard) : Guard :=
+  match w with
+  | .notDiagonal => .typeError
+  | .diagNegative => .valueError
+  | _ => k
+
+/-- `SquaredL2Loss`: `has_prox` for every `LinearOperator`; closed form iff `A` is a `Diagonal` (⊇ `Identity`) -/
+def sqL2LossGuard (w : WArg) (a : AArg) : Guard :=
+  wGuard w (match a with
+    | .none | .identity | .diagonal => .hasProxClosed
+    | .otherLinop => .hasProxCG
+    | .nonlinear => .noProx)
+
+/-- `SquaredL2AbsLoss`, `SquaredL2SquaredAbsLoss`: `has_prox` iff `A` is an `Identity` and `y >= 0` everywhere -/
+def absLossGuard (w : WArg) (a : AArg) (yNonneg : Bool) : Guard :=
+  wGuard w (match a with
+    | .none | .identity => if yNonneg then .hasProxClosed else .noProx
+    | _ => .noProx)
 
 end Scico.Prox
